@@ -4,6 +4,8 @@ import json, os
 V = os.path.dirname(os.path.dirname(os.path.abspath(__file__)))
 # property -> (technique, DESIGN section)
 CLAIMED = {
+ "C19": ("bounded-exhaustive enumeration of all index vectors (length<=4) and all 2^n masks (n<=12) plus rapidcheck-drawn longer ones, against a gather/scatter model with whole-parent and guard-window comparison", "5/C19"),
+ "C20": ("model-based operation histories (rapidcheck command lists) applied through a TensorMap over a misaligned guarded buffer and to an owning-tensor model; layout conversions and constructors against row/column-major offset formulas", "5/C20"),
  "C02": ("generated expression-tree programs compiled once on Fastor tensors and once on scalars (same text), compared per flat position bit for bit / within the stated rounding, rapidcheck-driven data incl. IEEE specials", "5/C02"),
  "C08": ("rapidcheck-driven lane-by-lane differential test of every SIMDVector<T,ABI> operation against plain scalar code, with guard-page placed loads/stores and all masks", "5/C08"),
  "C01": ("rapidcheck-driven differential test against an exact integer / long-double triple-loop oracle over generated (type,M,K,N,form) instances under every ISA", "5/C01"),
